@@ -157,6 +157,7 @@ def items_named(e):
 
 @contract('pydbml.renderer.sql.default.enum:render_enum')
 class render_enum:
+    returns_defines = True     # the abstract name IS this function's result; its content is the ensures below
     """CREATE TYPE <qualified> AS ENUM ( items in order )"""
     properties = ('C03', 'C10')
     params = {'model': 'Enum'}
@@ -545,6 +546,7 @@ def refs_wellformed(db):
 
 @contract('pydbml.renderer.sql.default.table:get_references_for_sql')
 class get_references_for_sql:
+    returns_proved_by = 'ensures_key_holder'
     properties = ('C04', 'C05', 'C17')
     params = {'model': 'Table'}
     pure = True
@@ -593,6 +595,7 @@ def columns_ok(t):
 
 @contract('pydbml.renderer.sql.default.table:render_column_notes')
 class render_column_notes:
+    returns_defines = True     # the abstract name IS this function's result; its content is the ensures below
     properties = ('C03', 'C13', 'C10')
     params = {'model': 'Table'}
     pure = True
@@ -638,6 +641,7 @@ def renderable(m):
 
 @contract('pydbml.renderer.sql.default.renderer:DefaultSQLRenderer.render')
 class sql_render:
+    returns_defines = True     # the abstract name IS this function's result; its content is the ensures below
     """Dispatch (C16) + refusal (C17) + leaf specification (C03/C04): render(model) raises
     AttributeMissingError iff a required attribute is None, and otherwise is the DDL text of
     model's kind."""
@@ -729,6 +733,7 @@ def elements_renderable(t):
 
 @contract('pydbml.renderer.sql.default.table:create_body')
 class create_body:
+    returns_defines = True     # the abstract name IS this function's result; its content is the ensures below
     """Inside the parentheses of CREATE TABLE: exactly the columns in order, then the pk indexes,
     then the inline foreign keys hosted here (each the element's own rendering), then one PRIMARY
     KEY clause iff several pk columns — nothing else."""
@@ -758,6 +763,7 @@ def sql_table_components(t):
 
 @contract('pydbml.renderer.sql.default.table:create_components')
 class create_components:
+    returns_defines = True     # the abstract name IS this function's result; its content is the ensures below
     """CREATE TABLE <qualified> ( body ); followed by one statement per non-pk index."""
     properties = ('C03', 'C10')
     params = {'model': 'Table'}
@@ -783,6 +789,7 @@ def sql_table(t):
 
 @contract('pydbml.renderer.sql.default.table:render_table')
 class render_table:
+    returns_defines = True     # the abstract name IS this function's result; its content is the ensures below
     """The table's statements, then COMMENT ON TABLE iff it has a note, then the column comments —
     all addressing the same qualified table (C03)."""
     properties = ('C03', 'C10')
@@ -803,6 +810,7 @@ class render_table:
 
 @contract('pydbml.renderer.sql.default.utils:reorder_tables_for_sql')
 class reorder_tables_for_sql:
+    returns_defines = True     # the abstract name IS this function's result; its content is the ensures below
     """C18, second sentence: whatever the order chosen, it is a permutation of the tables and the
     call writes nothing (so it depends only on the model).  The ordering clause itself (targets before
     holders) is refuted on the unchanged tree: known finding C18.B.order."""
